@@ -253,7 +253,7 @@ def entry_roundtrip(it):
     src.products = [SObj("Species", k) for k in names[nr:]]
     src.alpha, src.beta, src.gamma, src.temp_min, src.temp_max = SReal(a), SReal(b), SReal(c), SReal(tmin), SReal(tmax)
     src.idxfromfile, src.reaction_type, src.source = SInt(idx), rt, "kida"
-    P = ("C18", "C07")
+    P = ("C18", "C07", "C06")
     tag = f"naunet/{nr}r{np_}p"
     # Reaction.__format__ sorts the species by name: the contract is stated for name-sorted lists (sorted() is the identity)
     it.ctx.sorted_is_identity = True
@@ -287,7 +287,7 @@ def _register():
     register(Unit("decode_umist", __name__, make_ctx, entry_umist, functions=[UMISTReaction._parse_string, Component._create_species], props=("C07",)))
     register(Unit("decode_leeds", __name__, make_ctx, entry_leeds, functions=[LEEDSReaction._parse_string, Component._create_species], props=("C07",)))
     register(Unit("naunet_roundtrip", __name__, make_ctx, entry_roundtrip,
-                  functions=[Reaction.__format__, Reaction._parse_string, Component._create_species], props=("C18", "C07")))
+                  functions=[Reaction.__format__, Reaction._parse_string, Component._create_species], props=("C18", "C07", "C06")))
 
 
 _register()
